@@ -206,7 +206,19 @@ impl Sim {
         if self.syncing[r] {
             return;
         }
-        let keys = self.store.get_map(|content| content.keys().cloned().collect());
+        // `MapLane::sync` does `content.keys().cloned().collect()`; collecting a filtered
+        // iterator into a VecDeque does not finish under CBMC (a one-update shape timed out at
+        // 400 s), so the same ordered key snapshot is built with explicit pushes.
+        let mut keys: VecDeque<u8> = VecDeque::with_capacity(NK);
+        if self.cur[0] != 0 {
+            keys.push_back(0);
+        }
+        if self.cur[1] != 0 {
+            keys.push_back(1);
+        }
+        if self.cur[2] != 0 {
+            keys.push_back(2);
+        }
         self.store.queue().sync(rid(r), keys);
         self.syncing[r] = true;
         self.rep[r] = [0; NK];
